@@ -23,7 +23,8 @@ VARIABLE l
 ToSet(s) == {s[i] : i \in 1 .. Len(s)}
 
 Verdicts(e) ==
-  LET full == Calls(e.fmt, e.op, e.n, e.m, e.w, e.v) IN
+  \* an index file that lacks mandatory packets ends the operation after it has been read (states "short-index..")
+  LET full == IF e.index_usable THEN Calls(e.fmt, e.op, e.n, e.m, e.w, e.v) ELSE << "read" >> IN
   (IF ObservedOK(e.calls, full, e.k) THEN {} ELSE {"C18.call_log_is_step_language"})
   \cup (IF (e.k > 0 /\ e.k <= Len(full)) => e.res.err THEN {} ELSE {"C18.failure_is_reported"})
   \cup (IF e.k = 0 => (e.res.err = e.baseline.err) THEN {} ELSE {"C18.no_fault_no_difference"})
